@@ -129,6 +129,64 @@ Proof. intros Hn Hm E. apply Hn. rewrite E. apply in_map. exact Hm. Qed.
 Lemma minter_no_fee : no_module_fee minter_beh.
 Proof. right. intro x. unfold fee_of, minter_beh. simpl. lia. Qed.
 
+Lemma pay_create_fee_exact s sender s0 : Exact s -> pay_create_fee s sender = Some s0 -> Exact s0.
+Proof.
+  intros X H. pose proof (ex_inv _ X) as I.
+  destruct (pay_create_fee_good s sender s0 I H) as [G0 [K0 [Bm Eb]]].
+  apply (exact_frame s s0 X (good_step_inv s s0 I G0) (proj1 G0) K0).
+  - intros t _. rewrite Eb. reflexivity.
+  - intros d _. apply Bm.
+Qed.
+
+Lemma create_coin_core_exact s d s' : Exact s -> create_coin_core s d = Some s' -> Exact s'.
+Proof.
+  intros X H. pose proof (ex_inv _ X) as I.
+  pose proof (proj1 (create_from_coin_ok s d s' I H)) as I'.
+  destruct (create_from_coin_ok s d s' I H) as [_ [Hk [t Hr]]].
+  unfold create_coin_core, bind, guard in H.
+  destruct (negb (is_some (find_den s d)) && meta s d) eqn:G1; [|discriminate].
+  destruct (negb (is_some (find_tok s (next_tok s)))) eqn:G2; [|discriminate].
+  apply andb_true_iff in G1 as [G1 _]. apply negb_true_iff in G1.
+  destruct (find_den s d) eqn:Fd; [discriminate|]. apply find_den_none in Fd.
+  inversion H; subst s'; clear H. simpl in *.
+  constructor; simpl.
+  + exact I'.
+  + intros m Hm. apply in_app_or in Hm as [Hm|[Hm|[]]].
+    * destruct (Hk m Hm) as [_ E]. rewrite E. apply X. exact Hm.
+    * subst m. unfold slack. simpl. unfold updT. rewrite Nat.eqb_refl. rewrite (ex_den _ X d Fd). lia.
+  + intros t0 Hn. rewrite map_app in Hn. simpl in Hn.
+    destruct (Nat.eqb t0 (next_tok s)) eqn:E.
+    * decode. exfalso. apply Hn. apply in_or_app. right. left. congruence.
+    * apply X. intro Hin. apply Hn. apply in_or_app. left. exact Hin.
+  + intros d0 Hn. rewrite map_app in Hn. apply X. intro Hin. apply Hn. apply in_or_app. left. exact Hin.
+  + intros t0 b0. unfold updT. destruct (Nat.eqb t0 (next_tok s)).
+    * intro E. inversion E; subst b0. exact minter_no_fee.
+    * apply X.
+Qed.
+
+Lemma create_erc20_core_exact s t s' : Exact s -> create_erc20_core s t = Some s' -> Exact s'.
+Proof.
+  intros X H. pose proof (ex_inv _ X) as I.
+  pose proof (proj1 (create_from_erc20_ok s t s' I H)) as I'.
+  destruct (create_from_erc20_ok s t s' I H) as [_ [Hk Hr]].
+  unfold create_erc20_core, bind, guard in H.
+  destruct (negb (is_some (find_tok s t)) && is_some (tk s t) && negb (meta s (DErc t))
+            && negb (is_some (find_den s (DErc t)))) eqn:G1; [|discriminate].
+  apply andb_true_iff in G1 as [G1 G4]. apply andb_true_iff in G1 as [G1 _]. apply andb_true_iff in G1 as [G1 G2].
+  apply negb_true_iff in G1, G4.
+  destruct (find_tok s t) eqn:Ft; [discriminate|]. apply find_tok_none in Ft.
+  destruct (find_den s (DErc t)) eqn:Fd; [discriminate|]. apply find_den_none in Fd.
+  inversion H; subst s'; clear H. simpl in *.
+  constructor; simpl.
+  + exact I'.
+  + intros m Hm. apply in_app_or in Hm as [Hm|[Hm|[]]].
+    * apply (ex_slack _ X m Hm).
+    * subst m. unfold slack. simpl. rewrite (inv_unmapped _ I t Fd), (ex_tok _ X t Ft). lia.
+  + intros t0 Hn. rewrite map_app in Hn. apply X. intro Hin. apply Hn. apply in_or_app. left. exact Hin.
+  + intros d0 Hn. rewrite map_app in Hn. apply X. intro Hin. apply Hn. apply in_or_app. left. exact Hin.
+  + apply X.
+Qed.
+
 Lemma exec_exact s o s' : Exact s -> gift_free o = true -> exec s o = Some s' -> Exact s'.
 Proof.
   intros X G H. pose proof (ex_inv _ X) as I.
@@ -161,44 +219,11 @@ Proof.
       * intro E. inversion E; subst b0. left. exact G.
       * apply X.
   - (* CreateFromCoin *)
-    destruct (create_from_coin_ok s d s' I H) as [_ [Hk [t Hr]]].
-    simpl in H. unfold bind, guard in H.
-    destruct (negb (is_some (find_den s d)) && meta s d) eqn:G1; [|discriminate].
-    destruct (negb (is_some (find_tok s (next_tok s)))) eqn:G2; [|discriminate].
-    apply andb_true_iff in G1 as [G1 _]. apply negb_true_iff in G1.
-    destruct (find_den s d) eqn:Fd; [discriminate|]. apply find_den_none in Fd.
-    inversion H; subst s'; clear H. simpl in *.
-    constructor; simpl.
-    + exact I'.
-    + intros m Hm. apply in_app_or in Hm as [Hm|[Hm|[]]].
-      * destruct (Hk m Hm) as [_ E]. rewrite E. apply X. exact Hm.
-      * subst m. unfold slack. simpl. unfold updT. rewrite Nat.eqb_refl. rewrite (ex_den _ X d Fd). lia.
-    + intros t0 Hn. rewrite map_app in Hn. simpl in Hn.
-      destruct (Nat.eqb t0 (next_tok s)) eqn:E.
-      * decode. exfalso. apply Hn. apply in_or_app. right. left. congruence.
-      * apply X. intro Hin. apply Hn. apply in_or_app. left. exact Hin.
-    + intros d0 Hn. rewrite map_app in Hn. apply X. intro Hin. apply Hn. apply in_or_app. left. exact Hin.
-    + intros t0 b0. unfold updT. destruct (Nat.eqb t0 (next_tok s)).
-      * intro E. inversion E; subst b0. exact minter_no_fee.
-      * apply X.
+    unfold bind in H. destruct (pay_create_fee s sender) as [s0|] eqn:Pf; [|discriminate].
+    eapply create_coin_core_exact; [eapply pay_create_fee_exact; eauto | exact H].
   - (* CreateFromErc20 *)
-    destruct (create_from_erc20_ok s t s' I H) as [_ [Hk Hr]].
-    simpl in H. unfold bind, guard in H.
-    destruct (negb (is_some (find_tok s t)) && is_some (tk s t) && negb (meta s (DErc t))
-              && negb (is_some (find_den s (DErc t)))) eqn:G1; [|discriminate].
-    apply andb_true_iff in G1 as [G1 G4]. apply andb_true_iff in G1 as [G1 _]. apply andb_true_iff in G1 as [G1 G2].
-    apply negb_true_iff in G1, G4.
-    destruct (find_tok s t) eqn:Ft; [discriminate|]. apply find_tok_none in Ft.
-    destruct (find_den s (DErc t)) eqn:Fd; [discriminate|]. apply find_den_none in Fd.
-    inversion H; subst s'; clear H. simpl in *.
-    constructor; simpl.
-    + exact I'.
-    + intros m Hm. apply in_app_or in Hm as [Hm|[Hm|[]]].
-      * apply (ex_slack _ X m Hm).
-      * subst m. unfold slack. simpl. rewrite (inv_unmapped _ I t Fd), (ex_tok _ X t Ft). lia.
-    + intros t0 Hn. rewrite map_app in Hn. apply X. intro Hin. apply Hn. apply in_or_app. left. exact Hin.
-    + intros d0 Hn. rewrite map_app in Hn. apply X. intro Hin. apply Hn. apply in_or_app. left. exact Hin.
-    + apply X.
+    unfold bind in H. destruct (pay_create_fee s sender) as [s0|] eqn:Pf; [|discriminate].
+    eapply create_erc20_core_exact; [eapply pay_create_fee_exact; eauto | exact H].
   - (* ConvertCoinToEvm *)
     unfold bind, guard in H. destruct (negb (Nat.eqb sender Module)) eqn:G1; [|discriminate]. decode.
     destruct (find_den s d) as [m0|] eqn:Fd; [|discriminate]. apply find_den_some in Fd as [Hm0 _].
@@ -309,9 +334,9 @@ Definition std (sink : acct) : tbeh :=
   {| tb_fee := fun _ => 0; tb_sink := sink; tb_heavy := false; tb_false := false; tb_burn := false; tb_pos := false |}.
 
 Definition ex_ops_exact : list op :=
-  [ SetMeta (DCoin 0); Fund 3 (DCoin 0) 1000; CreateFromCoin (DCoin 0);
+  [ SetMeta (DCoin 0); Fund 3 (DCoin 0) 1000; Fund 3 DGas 100000000000; CreateFromCoin 3 (DCoin 0);
     ConvertCoinToEvm 3 (DCoin 0) 300 1; SendToBank 1 0 70 4;
-    Deploy 1 (fee10 (tok_addr 1)) 1000; CreateFromErc20 1;
+    Deploy 1 (fee10 (tok_addr 1)) 1000; CreateFromErc20 3 1;
     SendToBank 1 1 100 3; ConvertCoinToEvm 3 (DErc 1) 40 2;
     Framed FInnerRevert (SendToEvm 5 (DCoin 0) 5 2) ]%nat.
 
@@ -327,7 +352,7 @@ Example exact_needs_gift_free :
   exists ops m, In m (reg (run init ops)) /\ m_coin m = true /\
     esup (run init ops) (m_tok m) < bank (run init ops) Module (m_den m).
 Proof.
-  exists [ SetMeta (DCoin 0); Fund 3 (DCoin 0) 1000; CreateFromCoin (DCoin 0);
+  exists [ SetMeta (DCoin 0); Fund 3 (DCoin 0) 1000; Fund 3 DGas 100000000000; CreateFromCoin 3 (DCoin 0);
            ConvertCoinToEvm 3 (DCoin 0) 300 1; Erc20Burn 1 0 20 ]%nat.
   eexists. split; [left; reflexivity|]. split; [reflexivity|]. vm_compute. reflexivity.
 Qed.
